@@ -634,4 +634,74 @@ example : good.data.WF ∧ NoWrapB good = true ∧ Needs good ∧ ¬ Needs wPena
   have := h.pen_le 0 (by decide)
   revert this; decide
 
+
+/-! ## Agreement with C20's life-cycle model
+
+`PsV.Lifecycle.fit` (Model/Lifecycle.lean, property C20) abstracts the arguments of `fit` to a flag `valid`.  The
+theorem gives that flag its meaning (`toLifecycle`: `valid` = the repaired sanity block accepts = `Needs`) and shows that
+the two hand-written models of `splinetable::fit` agree where they overlap: same success/exception verdict, and the
+table is non-empty afterwards in the one exactly when it is in the other.  (Allocation failures are a countdown in
+C20's model and `Ext.badAlloc` here; the theorem is about the runs without one.) -/
+
+theorem entry_agrees_with_lifecycle (a : Args) (hwf : a.data.WF) (hw : NoWrapB a = true) (x : Ext)
+    (hx : x ≠ .badAlloc) (t : PsV.Lifecycle.Tab) (tb : Tbl) (hrel : tb.isSome = true ↔ t.ndim ≠ 0) :
+    ((PsV.Lifecycle.fit PsV.Lifecycle.Cfg.head t none (toLifecycle a x)).res = .ok ↔
+        (fitEntry repaired head a x tb).1 = .ok) ∧
+    ((PsV.Lifecycle.fit PsV.Lifecycle.Cfg.head t none (toLifecycle a x)).res = .threw ↔
+        (fitEntry repaired head a x tb).1 ≠ .ok) ∧
+    ((PsV.Lifecycle.fit PsV.Lifecycle.Cfg.head t none (toLifecycle a x)).tab.ndim ≠ 0 ↔
+        (fitEntry repaired head a x tb).2.isSome = true) := by
+  by_cases ht : t.ndim = 0
+  · -- empty table on both sides
+    have htb : tb = none := by
+      cases tb with
+      | none => rfl
+      | some s => exact absurd ht (hrel.mp rfl)
+    subst htb
+    by_cases hn : Needs a
+    · have hc := needs_imply_checks a hwf hn
+      have hb := needs_noWrap_imply_safeW a hwf hn hw
+      have hlen := toLifecycle_dims_length a x
+      have hnd := hn.ndim_pos
+      have hd : (toLifecycle a x).dims ≠ [] := by
+        intro h; rw [h] at hlen; simp at hlen; omega
+      have hv : (toLifecycle a x).valid = true := by simp [toLifecycle, hc]
+      rw [lifecycle_fit_empty_valid t _ ht hv hd]
+      cases x with
+      | badAlloc => exact absurd rfl hx
+      | done =>
+        obtain ⟨h1, h2⟩ := build_ok_of_complete true t (PsV.Lifecycle.fitSteps (toLifecycle a .done))
+          (PsV.Lifecycle.fitTarget (toLifecycle a .done) t) (toLifecycle a .done).dims.length
+          (fitSteps_complete _ (by simp [toLifecycle]))
+        rw [h1, h2]
+        have he : fitEntry repaired head a .done none = (.ok, some (fitShapeW a)) := by
+          simp [fitEntry, head, hc, hb]
+        rw [he]
+        simp only [PsV.Lifecycle.fitTarget, hlen]
+        refine ⟨by simp, by simp, by simp; omega⟩
+      | glamFailed =>
+        obtain ⟨h1, h2⟩ := build_guard_of_failed t (PsV.Lifecycle.fitSteps (toLifecycle a .glamFailed))
+          (PsV.Lifecycle.fitTarget (toLifecycle a .glamFailed) t) (toLifecycle a .glamFailed).dims.length
+          (fitSteps_failed _ (by simp [toLifecycle]))
+        rw [h1, h2, (entry_solver_failure_leaves_empty a hwf hw hn).2]
+        simp [ht]
+    · have hv : (toLifecycle a x).valid = false := by
+        simp only [toLifecycle, decide_eq_false_iff_not]
+        exact fun hc => hn (checks_imply_needs a hc)
+      obtain ⟨e, _, he⟩ := entry_inconsistent_rejected head a hwf x hn
+      rw [he, lifecycle_fit_empty_invalid t _ ht hv]
+      simp [ht]
+  · -- populated table: refused by both
+    have htb : tb.isSome = true := hrel.mpr ht
+    obtain ⟨s, rfl⟩ := Option.isSome_iff_exists.mp htb
+    rw [entry_occupied_refused, lifecycle_fit_occupied t _ ht]
+    simp [ht]
+
+/-- non-vacuity: an empty and a fitted life-cycle table, related to `none` / `some _` -/
+example : good.data.WF ∧ NoWrapB good = true ∧ Ext.glamFailed ≠ Ext.badAlloc ∧
+    ((none : Tbl).isSome = true ↔ PsV.Lifecycle.Tab.empty.ndim ≠ 0) ∧
+    ((some (fitShape good) : Tbl).isSome = true ↔ ({ ndim := 2 } : PsV.Lifecycle.Tab).ndim ≠ 0) ∧
+    (PsV.Lifecycle.fit PsV.Lifecycle.Cfg.head PsV.Lifecycle.Tab.empty none (toLifecycle good .done)).res = .ok := by
+  refine ⟨⟨rfl, rfl, by decide⟩, by decide, by decide, by decide, by decide, by decide⟩
+
 end PsV.Fit
